@@ -421,6 +421,8 @@ def job_options(job):
                             v['symbolcls'] = symb
                         if wrap:
                             v['wrapper'] = wrap
+                        if (cse, graded, symb, wrap) in ((True, False, 'sympy', None), (False, False, None, 'identity')):
+                            v['pretty_blade'] = 'B'          # a printing option: never reaches a result
                         variants.append(v)
         if base.get('variants'):
             variants = [dict({k: v for k, v in base.items() if k != 'variants'}, **v) for v in base['variants']]
